@@ -140,6 +140,13 @@ pub struct DbgOnly {
 
 #[derive(Debug, Clone)]
 pub enum CV {
+    /// a fixed-size array of primitives handed over as `&[T; N]` / `[T; N]: ToValue` (kind, elements)
+    Arr(&'static str, Vec<CV>),
+    /// an Option of a primitive handed over through `From<Option<T>>`
+    Opt(Box<CV>),
+    OptNone,
+    /// a fixed-size byte array streamed borrowed (sval::BinaryArray)
+    BytesRef([u8; 8]),
     Reent(Reent),
     Disp(DispOnly),
     Dbg(DbgOnly),
@@ -172,6 +179,19 @@ pub enum Fw {
 }
 
 impl CV {
+    /// The logical value of a value form (array -> sequence, Option -> content / None).
+    pub fn norm(&self) -> std::borrow::Cow<'_, CV> {
+        use std::borrow::Cow;
+        match self {
+            CV::Arr(_, v) => Cow::Owned(CV::Seq(v.clone())),
+            CV::Opt(b) => Cow::Owned(b.norm().into_owned()),
+            CV::OptNone => Cow::Owned(CV::None),
+            CV::BytesRef(b) => Cow::Owned(CV::Bytes(b.to_vec())),
+            CV::Some(b) => Cow::Owned(b.norm().into_owned()),
+            o => Cow::Borrowed(o),
+        }
+    }
+
     pub fn strip_some(&self) -> &CV {
         match self {
             CV::Some(b) => b.strip_some(),
@@ -202,6 +222,23 @@ impl CV {
             CV::U128(v) => emit::Value::from(*v),
             CV::F64(v) => emit::Value::from(*v),
             CV::Str(v) => emit::Value::from(v.as_str()),
+            CV::Arr(kind, v) => arr_value(kind, v, fw),
+            CV::Opt(b) => match &**b {
+                CV::I64(x) => emit::Value::from(Some(*x)),
+                CV::F64(x) => emit::Value::from(Some(*x)),
+                CV::Bool(x) => emit::Value::from(Some(*x)),
+                CV::U128(x) => emit::Value::from(Some(*x)),
+                CV::Str(x) => match fw {
+                    Fw::Sval => emit::Value::from(Some(x.as_str())),
+                    Fw::Serde => emit::Value::from(Some(x)),
+                },
+                o => panic!("Opt of {o:?}"),
+            },
+            CV::OptNone => match fw {
+                Fw::Sval => emit::Value::from(None::<i64>),
+                Fw::Serde => emit::Value::from(None::<&str>),
+            },
+            CV::BytesRef(b) => emit::Value::from_sval(sval::BinaryArray::new(b)),
             CV::Err(e) => emit::Value::capture_error(e),
             CV::Disp(d) => match fw {
                 Fw::Sval => emit::Value::from_display(d),
@@ -258,6 +295,10 @@ impl CV {
         use serde_json::json;
         match self {
             CV::Null => json!(null),
+            CV::Arr(k, v) => json!({"array_of": k, "v": v.iter().map(|c| c.to_json()).collect::<Vec<_>>()}),
+            CV::Opt(b) => json!({"option": b.to_json()}),
+            CV::OptNone => json!("Option::None"),
+            CV::BytesRef(b) => json!({"byte_array": b}),
             CV::Reent(r) => json!({"reentrant": r.id}),
             CV::Disp(d) => json!({"display_only": d.to_string()}),
             CV::Dbg(d) => json!({"debug_only": format!("{d:?}")}),
@@ -288,6 +329,7 @@ impl sval::Value for CV {
     fn stream<'sval, S: sval::Stream<'sval> + ?Sized>(&'sval self, stream: &mut S) -> sval::Result {
         match self {
             CV::Null => stream.null(),
+            CV::Arr(..) | CV::Opt(_) | CV::OptNone | CV::BytesRef(_) => stream.value_computed(&*self.norm()),
             CV::Reent(r) => stream.value(r),
             CV::Disp(d) => sval::stream_display(stream, d),
             CV::Dbg(d) => sval::stream_display(stream, format_args!("{d:?}")),
@@ -338,6 +380,7 @@ impl serde::Serialize for CV {
         use serde::ser::{SerializeMap, SerializeSeq};
         match self {
             CV::Null => s.serialize_unit(),
+            CV::Arr(..) | CV::Opt(_) | CV::OptNone | CV::BytesRef(_) => self.norm().serialize(s),
             CV::Reent(r) => s.collect_str(r),
             CV::Disp(d) => s.collect_str(d),
             CV::Dbg(d) => s.collect_str(&format_args!("{d:?}")),
@@ -538,6 +581,31 @@ impl Pool {
             "AggCount" => CV::Str("count".into()),
             "AggSum" => CV::Str("sum".into()),
             "AggLast" => CV::Str(self.pick(&["last", "min", "max"]).to_string()),
+            "OptNone" => CV::OptNone,
+            "BytesRef" => {
+                let mut b = [0u8; 8];
+                for x in b.iter_mut() {
+                    *x = self.rng.next() as u8;
+                }
+                if self.rng.below(3) == 0 {
+                    b = [0, 0xff, 0x80, 0x7f, 0, 0, 0xc3, 0x28];
+                }
+                CV::BytesRef(b)
+            }
+            "Arr" => {
+                let n = if key == "metric_value" { 2 + self.rng.below(2) as usize } else { self.rng.below(4) as usize };
+                let kind: &'static str = match rest[0].as_str() { "I64" => "I64", "F64" => "F64", "NaN" => "F64", "Str" => "Str", "Bool" => "Bool", "U128" => "U128", o => panic!("Arr of {o}") };
+                let mut v = Vec::new();
+                for _ in 0..n {
+                    v.push(self.value_at(rest, key).0);
+                }
+                let r = skip_shape(rest);
+                return (CV::Arr(kind, v), r);
+            }
+            "Opt" => {
+                let (inner, r) = self.value_at(rest, key);
+                return (CV::Opt(Box::new(inner)), r);
+            }
             "Seq" => {
                 // metric samples: mostly two or more points
                 let n = if key == "metric_value" { [0usize, 1, 2, 3, 2, 3][self.rng.below(6) as usize] } else { self.rng.below(4) as usize };
@@ -612,8 +680,42 @@ impl Pool {
 /// The tokens after one complete shape in prefix notation.
 pub fn skip_shape(shape: &[String]) -> &[String] {
     match shape[0].as_str() {
-        "Seq" | "MapStr" | "Some" => skip_shape(&shape[1..]),
+        "Seq" | "MapStr" | "Some" | "Arr" | "Opt" => skip_shape(&shape[1..]),
         "MapKey" => skip_shape(&shape[2..]),
         _ => &shape[1..],
+    }
+}
+
+/// `&[T; N]` (From) or `[T; N]: ToValue`, for N = 0..=3; the array is leaked (short-lived process).
+fn arr_value(kind: &str, v: &[CV], fw: Fw) -> emit::Value<'static> {
+    use emit::value::ToValue;
+    macro_rules! by_len {
+        ($t:ty, $xs:expr) => {{
+            let xs: Vec<$t> = $xs;
+            macro_rules! mk {
+                ($n:literal) => {{
+                    let arr: &'static [$t; $n] = Box::leak(Box::new(<[$t; $n]>::try_from(xs).ok().unwrap()));
+                    match fw {
+                        Fw::Sval => emit::Value::from(arr),
+                        Fw::Serde => arr.to_value(),
+                    }
+                }};
+            }
+            match xs.len() {
+                0 => mk!(0),
+                1 => mk!(1),
+                2 => mk!(2),
+                3 => mk!(3),
+                n => panic!("array of {n}"),
+            }
+        }};
+    }
+    match kind {
+        "I64" => by_len!(i64, v.iter().map(|c| match c { CV::I64(x) => *x, o => panic!("{o:?}") }).collect()),
+        "F64" => by_len!(f64, v.iter().map(|c| match c { CV::F64(x) => *x, o => panic!("{o:?}") }).collect()),
+        "Bool" => by_len!(bool, v.iter().map(|c| match c { CV::Bool(x) => *x, o => panic!("{o:?}") }).collect()),
+        "U128" => by_len!(u128, v.iter().map(|c| match c { CV::U128(x) => *x, o => panic!("{o:?}") }).collect()),
+        "Str" => by_len!(&'static str, v.iter().map(|c| match c { CV::Str(x) => &*Box::leak(x.clone().into_boxed_str()), o => panic!("{o:?}") }).collect()),
+        o => panic!("array kind {o}"),
     }
 }
